@@ -92,6 +92,7 @@ def repair_value(
     constraints = field_def.pattern.constraints.constraints
     current_value = value
     was_repaired = False
+    log_start = len(repair_log.repairs)
 
     for constraint in constraints:
         if isinstance(constraint, EnumConstraint):
@@ -104,6 +105,13 @@ def repair_value(
             if did_repair:
                 current_value = repaired
                 was_repaired = True
+
+    # A chain of repairs that ends where it started (e.g. ENUM[A,B]∧ENUM[a,b] turning
+    # "a" into "A" and back) changed nothing: report no repair and log none, so that
+    # repairing an already repaired document is silent (I4: the log lists changes only).
+    if was_repaired and type(current_value) is type(value) and current_value == value:
+        del repair_log.repairs[log_start:]
+        return value, False
 
     return current_value, was_repaired
 
